@@ -298,6 +298,7 @@ func (c *checker) runType(t *typ, shortLen int) {
 		seen[string(b)] = struct{}{}
 		return true
 	}
+	var valid [][]byte
 	for _, v := range t.vals {
 		var b []byte
 		var err error
@@ -308,6 +309,7 @@ func (c *checker) runType(t *typ, shortLen int) {
 		}
 		if once(b) {
 			c.checkInput(t, rawHead, fieldLax, b, "valid encoding by encoding/asn1", true)
+			valid = append(valid, b)
 		}
 		singleMutations(b, th, func(m []byte, what string) {
 			if once(m) {
@@ -315,12 +317,72 @@ func (c *checker) runType(t *typ, shortLen int) {
 			}
 		})
 	}
+	c.dirty(t, valid)
 	forShort(shortLen, func(b []byte) {
 		if _, ok := seen[string(b)]; ok {
 			return
 		}
 		c.checkInput(t, rawHead, fieldLax, append([]byte{}, b...), "short string", false)
 	})
+}
+
+// dirty: decoding into a destination that already holds the result of an earlier decode
+// (callers reuse variables). encoding/asn1 defines what that means (slices are rebuilt,
+// absent OPTIONAL members keep what the destination held); the fork must end with the same
+// value in strict and in lax mode. Every ordered pair of up to 12 valid encodings of the type.
+func (c *checker) dirty(t *typ, valid [][]byte) {
+	if t.s.K != KStruct && t.s.K != KSlice {
+		return
+	}
+	const maxDirty = 12
+	if len(valid) > maxDirty {
+		// keep the shortest, the longest and a spread in between
+		sort.SliceStable(valid, func(i, j int) bool { return len(valid[i]) < len(valid[j]) })
+		pick := make([][]byte, 0, maxDirty)
+		for i := 0; i < maxDirty; i++ {
+			pick = append(pick, valid[i*(len(valid)-1)/(maxDirty-1)])
+		}
+		valid = pick
+	}
+	two := func(l *lib, params string, b1, b2 []byte) (val string, ok bool, pmsg string) {
+		ptr := reflect.New(t.s.gt[l.idx])
+		var e1, e2 error
+		pan, msg, stack := enum.Catch(func() {
+			_, e1 = l.unm(b1, ptr.Interface(), params)
+			_, e2 = l.unm(b2, ptr.Interface(), params)
+		})
+		if pan {
+			return "", false, msg + "\n" + stack
+		}
+		if e1 != nil || e2 != nil {
+			return fmt.Sprintf("err1=%v err2=%v", e1, e2), false, ""
+		}
+		return show(t.s, ptr.Elem(), l, false), true, ""
+	}
+	for _, b1 := range valid {
+		for _, b2 := range valid {
+			c.r.Eval(1)
+			want, wok, _ := two(std, t.params, b1, b2)
+			if !wok {
+				continue
+			}
+			for _, mode := range []string{"strict", "lax"} {
+				params := t.params
+				if mode == "lax" {
+					params = join(t.params, "lax")
+				}
+				got, gok, pmsg := two(fork, params, b1, b2)
+				cd := caseDesc{Type: t.s.String(), Params: params, Input: rep.Hex(b1) + " then " + rep.Hex(b2), Origin: "two valid encodings decoded into the same destination", Fork: got, Ref: want}
+				switch {
+				case pmsg != "":
+					c.r.Violation("unmarshal-panic reused-destination mode="+mode+kindSuffix(t.s), pmsg, cd)
+				case !gok || got != want:
+					c.r.Violation("reused-destination-value-mismatch mode="+mode+kindSuffix(t.s),
+						fmt.Sprintf("type %s params %q: decoding %s and then %s into the same destination leaves %s; encoding/asn1 leaves %s", t.s, params, rep.Hex(b1), rep.Hex(b2), got, want), cd)
+				}
+			}
+		}
+	}
 }
 
 // bombs: sequential allocation checks (runtime.MemStats is process wide).
